@@ -99,6 +99,12 @@ func runnerCases(rng *rand.Rand, n int, emit core.Emit) {
 		}
 		emit("runner", offsets, strings.Join(init, ","), "24")
 	}
+	// contention: another writer holds the server's lock while the probe's outcome is being committed (the commit waits
+	// through the lock's back-off, longer than twice the probe timeout): the outcome must still be recorded
+	for _, ms := range []int{150, 250} {
+		emit("runner", "1+2", fmt.Sprintf("report|%s|10481|00000001|%s|3,hold|%s|%d", a1, hexs("srv"), a1, ms), "24")
+		emit("runner", "-", fmt.Sprintf("call|add!%s/10481/144/1/z!refuse,call|penq!%s!10481!0!1!1!z!z,hold|%s|%d", a1, a1, a1, ms), "24")
+	}
 	// a backlog of nothing but expired probes
 	emit("runner", "1+2", "call|penq!9.9.9.1:1!10480!1!0!1!z!"+fmt.Sprint(world.Epoch.UnixNano()+256)+",call|penq!9.9.9.2:1!10480!0!0!1!z!"+fmt.Sprint(world.Epoch.UnixNano()+512)+",adv1000000000", "24")
 }
